@@ -148,6 +148,7 @@ func checkC06(c *Ctx) {
 	if pf := newParserFacts(c); pf.err == nil {
 		ruleFieldCorrespondenceFor(c, pf, tomlLeaves(c), "R6.6", func(dest string) bool { return dest == "Analog.Bidirectional" })
 	}
+	c.importRules(configIntactRules, []string{"R3.7"}, "R6.12") // deadzones, flip and axis mappings are read from an unmodified copy of the parsed configuration
 	c.MinCount("R6.6", 3)
 	ruleDispatch(c, dv, "R6.8", false, true) // every axis position reaches the transfer function
 	ruleFlipAfterDeadzone(c, dv, "R6.7")
